@@ -32,7 +32,8 @@ type ConcCfg struct {
 	Crash    bool // record the disk stream of the concurrent part and recover from crash images cut inside it
 	Loss     int
 	MaxImg   int
-	Many     int // extra files created in the set-up and used by all clients (more inodes than the inode cache holds)
+	Storm    bool // most requests truncate and re-extend the one large sparse file (several background shrinkers at a time)
+	Many     int  // extra files created in the set-up and used by all clients (more inodes than the inode cache holds)
 }
 
 type HEv struct {
@@ -66,6 +67,7 @@ type concGen struct {
 	avoid map[string]bool
 	tag   *int32
 	my    []string // handles this client created (files)
+	storm bool
 }
 
 func (g *concGen) next() *Call {
@@ -79,6 +81,13 @@ func (g *concGen) next() *Call {
 			return g.my[g.r.Intn(len(g.my))]
 		}
 		return sh.files[g.r.Intn(len(sh.files))]
+	}
+	if g.storm && g.r.Intn(10) < 6 {
+		c = NewCall("SETATTR")
+		c.Fh, c.SetSize = sh.big, true
+		c.Size = []int{0, 1300 * 4096, 0, 700 * 4096, 4096 * 3, 1300 * 4096}[g.r.Intn(6)]
+		c.NLen, c.NLen2 = 0, 0
+		return c
 	}
 	switch {
 	case p < 14:
@@ -284,7 +293,7 @@ func RunConc(cfg ConcCfg, t *Trace, seg int) {
 		wg.Add(1)
 		go func(cl int) {
 			defer wg.Done()
-			g := &concGen{r: rand.New(rand.NewSource(int64(cfg.Seed)*31 + int64(cl))), sh: sh, cl: cl, tag: &tag, avoid: cfg.Avoid}
+			g := &concGen{r: rand.New(rand.NewSource(int64(cfg.Seed)*31 + int64(cl))), sh: sh, cl: cl, tag: &tag, avoid: cfg.Avoid, storm: cfg.Storm}
 			for n := 0; n < cfg.OpsPer && atomic.LoadInt32(&wedged) == 0; n++ {
 				c := g.next()
 				c.Cl = cl
